@@ -475,27 +475,58 @@ Definition find_descendants_for_rebase (s : state) (imm : list nat) : list nat :
   filter (fun x => memn x desc && memn x vis && negb (memn x imm) && negb (memn x keys))
          (seq 0 (length g)).
 
-(** * order_commits_for_rebase (repo.rs:1351-1393), new_parents_map empty *)
+(** * order_commits_for_rebase (repo.rs:1351-1403), new_parents_map empty.
+    For every parent the replacements are followed transitively (worklist [replaced_ids] with a
+    [seen] set, popped from the end): every target reached that is to be rebased and whose
+    neighbours were not computed yet becomes a dependent; then the parent itself if it is to be
+    rebased. [stack] is kept top first; [deps_rev] collects the dependents in reverse. *)
+Fixpoint repl_walk (fuel : nat) (pm : list (nat * rewrite)) (keep : nat -> bool)
+    (stack seen deps_rev : list nat) : list nat :=
+  match fuel with
+  | O => rev deps_rev
+  | S f =>
+      match stack with
+      | [] => rev deps_rev
+      | id :: rest =>
+          if memn id seen then repl_walk f pm keep rest seen deps_rev
+          else
+            match pm_get pm id with
+            | Some r =>
+                let ts := new_parent_ids r in
+                repl_walk f pm keep (rev ts ++ rest) (id :: seen) (rev_append (filter keep ts) deps_rev)
+            | None => repl_walk f pm keep rest (id :: seen) deps_rev
+            end
+      end
+  end.
+Definition repl_fuel (pm : list (nat * rewrite)) : nat := S (S (S (pm_size pm + pm_size pm))).
 Definition oc_deps (G : graph) pm (T visited : list nat) (x : nat) : list nat :=
+  flat_map (fun p =>
+      repl_walk (repl_fuel pm) pm (fun t => memn t T && negb (memn t visited)) [p] [] []
+      ++ (if memn p T then [p] else []))
+    (c_parents (getc G x)).
+(** The relation before the repair ad3bc19 of /repo (direct replacements only). *)
+Definition oc_deps_old (G : graph) pm (T visited : list nat) (x : nat) : list nat :=
   flat_map (fun p =>
       (match pm_get pm p with
        | Some r => filter (fun t => memn t T && negb (memn t visited)) (new_parent_ids r)
        | None => []
        end) ++ (if memn p T then [p] else []))
     (c_parents (getc G x)).
-Definition oc_nb (G : graph) pm (T : list nat) (visited : list nat) (x : nat) : list nat * list nat :=
-  let visited' := x :: visited in (visited', oc_deps G pm T visited' x).
+Definition oc_nb_with (deps : graph -> list (nat * rewrite) -> list nat -> list nat -> nat -> list nat)
+    (G : graph) pm (T : list nat) (visited : list nat) (x : nat) : list nat * list nat :=
+  let visited' := x :: visited in (visited', deps G pm T visited' x).
 Definition oc_fuel (G : graph) pm (T : list nat) : nat :=
   S (length T + fold_right (fun x acc =>
-        S (fold_right (fun p a => S (match pm_get pm p with Some r => length (new_parent_ids r) | None => 0 end) + a)
-                      0 (c_parents (getc G x))) + acc) 0 T + length T).
+        S (length (c_parents (getc G x)) * S (S (pm_size pm))) + acc) 0 T + length T).
 (** Result: the order in which transform_commits processes the commits. [Err] (cycle) is a panic
     in the implementation. [T] ascending. *)
-Definition order_commits_for_rebase (G : graph) pm (T : list nat) : res (list nat) :=
-  match topo_order_forward (oc_nb G pm T) (oc_fuel G pm T) [] (rev T) with
+Definition order_commits_with deps (G : graph) pm (T : list nat) : res (list nat) :=
+  match topo_order_forward (oc_nb_with deps G pm T) (oc_fuel G pm T) [] (rev T) with
   | Err => Panic
   | r => r
   end.
+Definition order_commits_for_rebase := order_commits_with oc_deps.
+Definition order_commits_for_rebase_old := order_commits_with oc_deps_old.
 
 (** * rebase_descendants_with_options (repo.rs:1496-1520) with transform_commits (1448-1477) and
     rebase_commit_with_options (rewrite.rs:467-492) at the graph level *)
@@ -529,15 +560,20 @@ Definition rebase_one (s : state) (o : rebase_opts) (x : nat) : res state :=
 
 Definition rebase_fold (o : rebase_opts) (order : list nat) (s : state) : res state :=
   fold_left (fun (acc : res state) x => do s0 <- acc; rebase_one s0 o x) order (Ok s).
-(** The loop of transform_commits, before the references are updated. *)
-Definition rebase_loop (s : state) (o : rebase_opts) : res state :=
+(** The loop of transform_commits, before the references are updated; [ord] is the ordering
+    function (the current one, or the one before the repair for the refutation witness). *)
+Definition rebase_loop_with (ord : graph -> list (nat * rewrite) -> list nat -> res (list nat))
+    (s : state) (o : rebase_opts) : res state :=
   let T := find_descendants_for_rebase s (o_imm o) in
-  do order <- order_commits_for_rebase (s_g s) (s_pm s) T;
+  do order <- ord (s_g s) (s_pm s) T;
   rebase_fold o order s.
-Definition rebase_descendants (s : state) (o : rebase_opts) : res state :=
-  do s1 <- rebase_loop s o;
+Definition rebase_descendants_with ord (s : state) (o : rebase_opts) : res state :=
+  do s1 <- rebase_loop_with ord s o;
   do s2 <- update_rewritten_references s1 (o_delete_abandoned o);
   Ok (set_pm s2 []).
+Definition rebase_loop := rebase_loop_with order_commits_for_rebase.
+Definition rebase_descendants := rebase_descendants_with order_commits_for_rebase.
+Definition rebase_descendants_old := rebase_descendants_with order_commits_for_rebase_old.
 
 (** * Operations driven by the harness *)
 Inductive op :=
